@@ -233,8 +233,9 @@ def oracle(case, impl):
         STATS["judged:no(ignore_errors)"] += 1
         return None                               # partial matches by design; model=impl still compared
     # the level that parses the `--`: the end of the subcommand chain selected by the prefix
+    # (read off the run without tail, else the run with the innocuous tail -- never off the run under test)
     chain = None
-    for r in (ra, rb, rc):
+    for r in (rc, rb):
         if r["kind"] == "ok":
             chain = [n for _, n in levels(r["m"]) if n is not None]
             break
